@@ -197,13 +197,43 @@ def pred_z3(where, row, params):
             # a column the contract does not speak about: arbitrary value (the predicate then cannot equal the contract unless it is redundant)
             row[col] = (z3.BitVec(f'r_{col}', 64), z3.Bool(f'r_{col}_null'))
         v, isnull = row[col]
+        if op == 'in' and isinstance(rhs, list) and len(rhs) == 1 and rhs[0].upper().startswith('SELECT'):
+            # col IN (SELECT c2 FROM t WHERE P): true iff some row r2 of t satisfies P and r2.c2 = col.  Encoded with the row itself and one more
+            # symbolic row as the candidate witnesses (every model is a table of at most two rows, so a difference from the contract is a real one)
+            sub = S.parse_stmt(rhs[0])
+            if len(sub.select) != 1:
+                raise S.SqlError('IN sub-select with several columns: ' + rhs[0])
+            c2 = sub.select[0]
+            pcopy = list(params)
+            p_self = pred_z3(sub.where or [], row, params)
+            nrow = row.setdefault('@n2', [0]); nrow[0] += 1
+            r2 = {k: ((z3.BitVec(f'r2_{nrow[0]}_{k}', val[0].size()) if val[0] is not None and z3.is_bv(val[0]) else val[0]), z3.Bool(f'r2_{nrow[0]}_{k}_null')) for k, val in row.items() if not k.startswith('@')}
+            lits2 = {}
+            r2['@lit'] = lambda col_, s_, lits2=lits2, k=nrow[0]: lits2.setdefault((col_, s_), z3.Bool(f'r2_{k}_{col_}_is_{s_}'))
+            if '@assume' in row:
+                r2['@assume'] = row['@assume']
+            p_other = pred_z3(sub.where or [], r2, pcopy)
+            for cc in (c2, col):
+                if cc not in r2:
+                    r2[cc] = (z3.BitVec(f'r2_{nrow[0]}_{cc}', 64), z3.Bool(f'r2_{nrow[0]}_{cc}_null'))
+                if cc not in row:
+                    row[cc] = (z3.BitVec(f'r_{cc}', 64), z3.Bool(f'r_{cc}_null'))
+            same_tbl = z3.And(z3.Not(row[c2][1]), row[c2][0] == v, z3.Not(isnull)) if c2 in row else z3.BoolVal(False)
+            conj.append(z3.Or(z3.And(p_self, same_tbl), z3.And(p_other, z3.Not(r2[c2][1]), z3.Not(isnull), r2[c2][0] == v)))
+            continue
         if op == 'isnull':
             conj.append(isnull); continue
         if op == 'notnull':
             conj.append(z3.Not(isnull)); continue
         if rhs == '?' or re.fullmatch(r'\?\d+', rhs or ''):
             p = params.pop(0) if params else None
-            if p is None or (z3.is_bv(p) and v is not None and z3.is_bv(v) and p.size() != v.size()):
+            if v is None and not isinstance(p, tuple):
+                # an enumeration column compared with a bound parameter: the value bound is one of the literals, which one is taken from the '@assume' table
+                # (the caller enumerates every candidate literal)
+                p = ('lit', row['@assume'](col)) if '@assume' in row else None
+                if p is None:
+                    raise S.SqlError(f'predicate compares the enumeration column {col} with a bound parameter')
+            elif p is None or (z3.is_bv(p) and v is not None and z3.is_bv(v) and p.size() != v.size()):
                 p = z3.BitVec(f'param_{col}_{len(conj)}', v.size() if v is not None and z3.is_bv(v) else 64)   # a parameter the contract knows nothing about
         else:
             mm = re.match(r"^'(.*)'$", rhs)
@@ -259,12 +289,24 @@ def o3(tier):
     prog = [S.parse_stmt(x) for x in S.program('messages.rs', 'find_failed_messages_for_retry')]
     sel = [s for s in prog if s.kind == 'SELECT']
     if len(sel) == 1:
-        p = pred_z3(sel[0].where, row, [g])
         contract = z3.And(z3.Not(row['mls_group_id'][1]), row['mls_group_id'][0] == g, lit('state', 'failed'), row['epoch'][1])
         cases += 1
-        sat, m = sol.check([p != contract])
-        if sat:
-            r.fail('O3/find_failed_messages_for_retry/predicate', f'retry candidates are selected by "{sel[0].text.split("WHERE")[1].strip()}", not (group, state failed, epoch NULL)')
+        # a state bound as a parameter is one of the state literals: the predicate must equal the contract for the literal actually bound; when that literal is not
+        # resolved from the source, a violation is only reported if the predicate differs from the contract for EVERY literal
+        differs = []
+        for cand in ['created', 'processed', 'processed_commit', 'failed', 'epoch_invalidated', 'retryable', 'another']:
+            row['@assume'] = lambda col, cand=cand: cand
+            p = pred_z3(sel[0].where, row, [g])
+            sat, m = sol.check([p != contract])
+            differs.append(sat)
+            if not any(isinstance(c, tuple) and len(c) == 3 and c[0] == 'state' and str(c[2]).startswith('?') for c in sel[0].where):
+                break
+        row.pop('@assume', None)
+        if all(differs):
+            r.fail('O3/find_failed_messages_for_retry/predicate', f'retry candidates are selected by "{sel[0].text.split("WHERE")[1].strip()}", not (group, state failed, epoch NULL): '
+                   'a comparison `epoch = ?` is never true for a NULL epoch, whatever is bound')
+        elif len(differs) > 1:
+            r.broken('find_failed_messages_for_retry binds the state as a parameter; the bound value is not resolved by the encoder')
     else:
         r.fail('O3/find_failed_messages_for_retry/shape', 'expected one SELECT')
     prog = [S.parse_stmt(x) for x in S.program('messages.rs', 'mark_processed_message_retryable')]
